@@ -46,9 +46,11 @@ func (b *RetriableBatcher) Out(data *WorkerData, batch *Batch) {
 		Multiplier:          b.backoffOpts.Multiplier,
 		RandomizationFactor: 0.5,
 		MaxInterval:         backoff.DefaultMaxInterval,
-		MaxElapsedTime:      backoff.DefaultMaxElapsedTime,
-		Stop:                backoff.Stop,
-		Clock:               backoff.SystemClock,
+		// Zero means no limit on the elapsed time: only the configured
+		// number of attempts decides when a batch is given up.
+		MaxElapsedTime: 0,
+		Stop:           backoff.Stop,
+		Clock:          backoff.SystemClock,
 	}
 	exponentionalBackoff.Reset()
 
